@@ -109,6 +109,31 @@ def gen_mesh_case(rng, want=None):
             d2 = ((pts[:, None, :] - pts[None, :, :]) ** 2).sum(-1) + np.eye(len(pts))
             if d2.min() < (1e-6) ** 2:
                 continue
+        # unreferenced nodes (legal for from_topology and the UGRID reader): 1-3 extra node coordinates at
+        # the start, in the middle and/or at the end of the node table; no face uses them
+        orphans = []
+        if rng.random() < 0.15:
+            faces = [list(f) for f in m.faces]
+            ok = True
+            for _k in range(rng.randrange(1, 4)):
+                where = rng.choice(["start", "start", "middle", "end"])
+                pos = {"start": 0, "middle": len(lon) // 2, "end": len(lon)}[where]
+                for _try in range(20):
+                    a, b = rng.uniform(-179.0, 179.0), rng.uniform(-89.0, 89.0)
+                    q = np.array(xyz_of_deg(a, b))
+                    if ((pts - q) ** 2).sum(-1).min() > (1e-3) ** 2:
+                        break
+                else:
+                    ok = False
+                    break
+                lon.insert(pos, a)
+                lat.insert(pos, b)
+                pts = np.insert(pts, pos, q, axis=0)
+                faces = [[x + 1 if x >= pos else x for x in f] for f in faces]
+                orphans = [o + 1 if o >= pos else o for o in orphans] + [pos]
+            if not ok:
+                continue
+            m.faces = faces
         width = m.width()
         if want_ == "wide":
             width = rng.choice([width + 1, width + 2, 9])
@@ -117,7 +142,7 @@ def gen_mesh_case(rng, want=None):
             width += 1
         sizes = sorted({len(f) for f in m.faces})
         return {"table": m.table(width), "lon": lon, "lat": lat, "name": m.name, "sizes": sizes,
-                "padded": any(len(f) < width for f in m.faces), "kind": want_}
+                "padded": any(len(f) < width for f in m.faces), "kind": want_, "orphans": sorted(orphans)}
     raise RuntimeError("mesh generator did not converge")
 
 
@@ -192,6 +217,23 @@ def fixed_scenarios():
                 "actions": [["mat", 0, "node_x"], ["enc", 0, "exodus", False]]})
     out.append({"grids": [{"mesh": mixed, "source": "xyz_only", "radius": 1.0}],
                 "actions": [["enc", 0, "exodus", False], ["enc", 0, "ugrid", False]]})
+    # node indices not referenced by any face: at the start (node 0; nodes 0..1), in the middle, at the end
+    lon8 = [5.0, -170.0, -100.0, -30.0, 40.0, 110.0, 170.0, 10.0, -60.0]
+    lat8 = [33.0, -80.0, -50.0, -20.0, 10.0, 40.0, 70.0, -5.0, 61.0]
+    orphan_tables = {
+        "orphan-node0": [[1, 2, 3, 4], [3, 4, 5, F], [5, 6, 7, F]],
+        "orphan-nodes01": [[2, 3, 4, 5], [4, 5, 6, F], [6, 7, 8, F]],
+        "orphan-middle-end": [[0, 1, 2, 3], [2, 3, 5, F], [5, 6, 7, F]],
+        "orphan-node0-uniform": [[1, 2, 3], [3, 4, 5], [5, 6, 7]],
+    }
+    for nm, tab in orphan_tables.items():
+        used = {x for r in tab for x in r if x != F}
+        mesh = {"table": tab, "lon": lon8, "lat": lat8, "name": nm, "sizes": sorted({sum(1 for x in r if x != F) for r in tab}),
+                "padded": any(F in r for r in tab), "kind": "orphan", "orphans": [i for i in range(9) if i not in used]}
+        for src in ("topo_ll", "topo_llxyz", "file_ugrid", "file_exodus"):
+            out.append({"grids": [{"mesh": mesh, "source": src, "radius": 1.0, "file_fill": -1, "file_start": 0}],
+                        "actions": [["enc", 0, "ugrid", False], ["enc", 0, "exodus", False], ["enc", 0, "scrip", False],
+                                    ["mat", 0, "edge_node_connectivity"], ["enc", 0, "ugrid", True]]})
     # grids opened FROM A FILE (int32 connectivity, declared _FillValue, start_index 0/1): the source
     # file's encoding must not block the export
     for mesh in (tri, mixed):
@@ -1024,7 +1066,7 @@ def main(ck):
                       "on a mixed and a uniform grid; all 16 ordered pairs of equipment levels across two grids) + "
                       "random histories (30% follow the shared-template pattern big-grid-then-other-grid): 1-3 grids (uniform tetra/cube/octa/icosa tilings, "
                       "mixed 3..8-gon tilings grown by split/subdivide/stellate/dual, partial, 1-2 face grids, "
-                      "extra padding columns; nodes on poles, on lon=+-180/0; 6 kinds of sources), up to 6 "
+                      "extra padding columns, 15% with 1-3 unreferenced nodes at the start/middle/end of the node table; nodes on poles, on lon=+-180/0; 6 kinds of sources), up to 6 "
                       "materialisations (20 derived quantities) and encodes of any grid in any format through "
                       "to_xarray or encode_as, then a final encode; every encode is checked directly and through a "
                       "netCDF file; non-trivial = history with >= 2 actions; distinct = distinct scenario")
@@ -1043,6 +1085,10 @@ def main(ck):
             hist["mesh_kind"][gd["mesh"]["kind"]] = hist["mesh_kind"].get(gd["mesh"]["kind"], 0) + 1
             for s in gd["mesh"]["sizes"]:
                 hist["face_sizes"][str(s)] = hist["face_sizes"].get(str(s), 0) + 1
+            if gd["mesh"].get("orphans"):
+                hist["grids_with_unreferenced_nodes"] = hist.get("grids_with_unreferenced_nodes", 0) + 1
+                if 0 in gd["mesh"]["orphans"]:
+                    hist["grids_with_node_0_unreferenced"] = hist.get("grids_with_node_0_unreferenced", 0) + 1
             hist["pole_nodes"] += sum(1 for a in gd["mesh"]["lat"] if abs(a) == 90.0)
             hist["lon180_nodes"] += sum(1 for a in gd["mesh"]["lon"] if abs(a) == 180.0)
         for f, r in res["mats"]:
